@@ -87,6 +87,10 @@ def generate(rng, tier):
         else:
             ln = {"op": "link_tree", "src": "@R/ascmhl", "dst": "@S/asc_copy", "fault": "hardlink_snapshot"}
         fm = ["-h", rng.choice(["md5", "xxh64", "c4"])]
+        if rng.random() < 0.4:
+            # ... taken while a temporary file of an interrupted run is still lying in the history folder
+            sc["ops"][at:at] = [dict(scen.cmd("create", "@R", *fm), kill={"at": rng.choice([2, 3, 4, 6, 9, 12]), "mode": rng.choice(["after", "partial"]), "bytes": 3})]
+            at += 1
         sc["ops"][at:at] = [ln, {"op": "advance", "us": 2_000_000}, scen.cmd("create", "@R", *fm),
                             {"op": "advance", "us": 2_000_000}, scen.cmd("create", "@R", *fm, *(["-dr"] if rng.random() < 0.3 else []))]
     if rng.random() < 0.15 and len(sc["ops"]) > 2:
